@@ -136,8 +136,12 @@ _KINDS = ['bool', 'auto', 'int', 'float', 'str', 'comma', 'lines', 'ports']
 _NAME = {k: n for n, _t, k in TABLE if k}
 
 
-def _pr(s):
-    for c in s:
+def _pr(s, inner_blank=False):
+    """printable, without the characters the wire forms treat specially; inner_blank: a blank is allowed where it ends up strictly inside an
+    item (first of two characters)"""
+    for k, c in enumerate(s):
+        if inner_blank and c == ' ' and k == 0 and len(s) == 2:
+            continue
         assume(33 <= ord(c) <= 126 and c != '"' and c != '\\' and c != ',')
 
 
@@ -150,7 +154,7 @@ def c11_bootstrap(ki: int, state: int, i: int, s: str, variant: bool, defsup: bo
     if kind in ('str', 'comma'):
         assume(state <= 1)
     assume(-5 <= i <= 70000 and len(s) <= 2)
-    _pr(s)
+    _pr(s, kind == 'comma')       # a comma-list item may contain a blank ("10 minutes, 1 hour")
     if kind in ('bool', 'auto', 'ports', 'float'):
         i = api.pick(i, 0, 5)
     variant = True if variant else False
@@ -184,7 +188,7 @@ def c11_bootstrap(ki: int, state: int, i: int, s: str, variant: bool, defsup: bo
 
 def _changed(kind, steps, svals, multi=False):
     """steps: list of op codes: 0 CONF_CHANGED unset, 1 CONF_CHANGED one value, 2 CONF_CHANGED two values,
-    3 local in-place edit (append) / scalar assignment, 4 save()"""
+    3 local in-place edit (append) / scalar assignment, 4 save(), 5 assignment of a new list"""
     name = _NAME[kind]
     values = {'AvoidDiskWrites': ['0'], 'AssumeReachable': ['auto'], 'NumCPUs': ['4'], 'CircuitPriorityHalflife': ['30.0'],
               'Nickname': ['fixed'], 'ExitNodes': ['x1'], 'ExcludeNodes': ['{aa},{bb}'], 'Log': ['notice stdout'], 'SocksPort': ['9050'], '__SocksPort': None, 'SocksPortLines': None}
@@ -195,6 +199,7 @@ def _changed(kind, steps, svals, multi=False):
             return 'harness: bootstrap failed %r' % (out.exc(),)
     listy = kind in ('comma', 'lines', 'ports')
     pending_local = None
+    assigned = False
     dflt = {'str': ['Unnamed'], 'int': ['0']}.get(kind)
     try:
         for n, op in enumerate(steps):
@@ -226,6 +231,9 @@ def _changed(kind, steps, svals, multi=False):
                         return R('read-depends-on-the-spelling-of-the-name', '%s: %s', spelling, r)
             elif op == 3:
                 if listy:
+                    # (reads show Tor's live value, so a list that was *assigned* is not edited through a fresh read before it is
+                    # saved: the documented behaviour of __getattr__, excluded here as in C10)
+                    assume(not assigned)
                     newv = _val(kind, 40 + n, 'q', False)
                     lst = cfg.__getattr__(name)
                     lst.append(newv)
@@ -237,6 +245,16 @@ def _changed(kind, steps, svals, multi=False):
                     pending_local = [newv]
                 if not cfg.needs_save():
                     return R('edit-after-change-event-not-tracked', '%s: in-place edit did not mark the option unsaved', name)
+            elif op == 5:
+                # replace the whole list by assignment (list options only)
+                if not listy:
+                    assume(False)
+                newv = _val(kind, 60 + n, 'r', False)
+                setattr(cfg, name, [newv])
+                pending_local = [newv]
+                assigned = True
+                if not cfg.needs_save():
+                    return R('edit-after-change-event-not-tracked', '%s: assignment did not mark the option unsaved', name)
             else:
                 before = len(tor.setconfs)
                 o = fakes.Outcome(cfg.save())
@@ -252,7 +270,12 @@ def _changed(kind, steps, svals, multi=False):
                             return R('saved-list-differs-from-edited-view', '%s: tor has %r, view was %r', name, got, pending_local)
                     if [k for k, _v in (tor.setconfs[-1] or []) if k != name]:
                         return R('save-sent-an-option-that-was-not-edited', '%r', tor.setconfs[-1])
+                    # after the save the view shows what Tor now has, with the option's type (a list stays a tracked list)
+                    r = check_option(cfg, name, kind, got if kind != 'comma' else [','.join(got)], dflt)
+                    if r:
+                        return R('view-after-save', '%s', r)
                     pending_local = None
+                assigned = False
         if kind == 'ports' and len(cfg.__getattr__(name)):
             ep = cfg.socks_endpoint(MemoryReactorClock())
             if ep is None:
@@ -263,11 +286,11 @@ def _changed(kind, steps, svals, multi=False):
     return ''
 
 
-@cond(quick=dict(parts=[{'ki': i, 'o1': a} for i in range(8) for a in range(5)], budget=100))
+@cond(quick=dict(parts=[{'ki': i, 'o1': a} for i in range(8) for a in range(6)], budget=100))
 def c11_changed(ki: int, o1: int, o2: int, o3: int, multi: bool) -> str:
     """after bootstrap: 3 steps of CONF_CHANGED (0/1/2 values; alone or in an event that names a second option) / local edit / save on the option of kind ki"""
-    o2 = api.pick(o2, 0, 4)
-    o3 = api.pick(o3, 0, 4)
+    o2 = api.pick(o2, 0, 5)
+    o3 = api.pick(o3, 0, 5)
     multi = True if multi else False
     with api.no_tracing():      # every choice is concrete by now
         return _changed(_KINDS[ki], [o1, o2, o3], ['u', 'v', 'k'], multi)
